@@ -95,6 +95,10 @@ def rule_partition(run, F, cfg):
             continue
         want = {"class": {"simple_class_rules", "complex_class_rules"},
                 "id": {"simple_id_rules", "complex_id_rules"}, "misc": {"misc_generic_selectors"}}[kind]
+        if key_none and kind in ("class", "id"):
+            # no class / id name could be extracted (e.g. an out-of-range CSS escape): the rule cannot be looked up by
+            # name, so it has to be among the selectors that are always applied — never dropped
+            want = {"misc_generic_selectors"}
         ok = len(stores) == 1 and stores[0] in want
         if ok and kind in ("class", "id") and d.get("simple") in (0, 1):
             # the whole selector IS the key  <=>  simple store (looked up by bare name and re-prefixed)
